@@ -44,12 +44,14 @@ def terminal_text(t):
 
 contract(CT + "terminal.__init__#str", props=["C10"],
          params=dict(self=TERM, t=Str, p_depth=Int, is_const=Bool, tree_type=TOpt(Str)),
+         modifies=["_type", "_p_depth", "_is_const", "_tree_type"],
          ensures=[("type", "field(self, '_type') == t"), ("depth", "field(self, '_p_depth') == p_depth"),
                   ("const", "field(self, '_is_const') == is_const"), ("tree", "field(self, '_tree_type') == tree_type"),
                   ("frame", "frame('_type', self) and frame('_p_depth', self) and frame('_is_const', self) and frame('_tree_type', self)")])
 
 contract(CT + "terminal.__init__#parsed", props=["C10"],
          params=dict(self=TERM, t=CPPParsedTypeInfo, p_depth=Int, is_const=Bool, tree_type=TOpt(Str)),
+         modifies=["_type", "_p_depth", "_is_const", "_tree_type"],
          ensures=[("type", "field(self, '_type') == t.name"), ("depth", "field(self, '_p_depth') == t.pointer_depth"),
                   ("const", "field(self, '_is_const') == t.is_const"), ("tree", "field(self, '_tree_type') == tree_type"),
                   ("frame", "frame('_type', self) and frame('_p_depth', self) and frame('_is_const', self) and frame('_tree_type', self)")])
